@@ -12,6 +12,7 @@ import (
 	"os"
 	"strings"
 	"sync"
+	"time"
 
 	btcConfig "github.com/ChainSafe/sygma-relayer/chains/btc/config"
 	btcExecutor "github.com/ChainSafe/sygma-relayer/chains/btc/executor"
@@ -112,7 +113,105 @@ func init() {
 	}
 }
 
+// c17StoreCall: one caller of the shared PropStore. `w<n><s>` StorePropStatus, `r<n>` PropStatus, `X<n>` the BTC
+// executor recording nonce n executed (storeProposalsStatus), `R<n>` the retry filter on the deposit with nonce n.
+func c17StoreCall(spec string, ps *store.PropStore, exe *btcExecutor.Executor) func() string {
+	n := u64(strings.TrimRight(spec[1:], "mpfe"))
+	switch spec[0] {
+	case 'w':
+		st := c3Status(spec[len(spec)-1:])
+		return func() string { return c3Ret(ps.StorePropStatus(c3Src, c3Dst, n, st)) }
+	case 'r':
+		return func() string {
+			st, err := ps.PropStatus(c3Src, c3Dst, n)
+			if err != nil {
+				return "x"
+			}
+			return c3Letter(st)
+		}
+	case 'X':
+		return func() string {
+			exe.VerifC17StoreProposalsStatus([]*btcExecutor.BtcTransferProposal{{Source: c3Src, Destination: c3Dst,
+				Data: btcExecutor.BtcTransferProposalData{DepositNonce: n}}}, store.ExecutedProp)
+			return "d"
+		}
+	case 'R':
+		return func() string {
+			ds := []c17Dep{{c3Dst, 1, n}}
+			em, _ := retry.FilterDeposits(ps, c17ByDomain(ds), c3Resource(1), c3Dst)
+			return "r" + itoa(len(em))
+		}
+	}
+	panic("bad store call " + spec)
+}
+
+func init() {
+	// overlap <A> <B> <nonce:status,…>   two callers of the ONE long-lived PropStore overlap: A has handed its key to
+	//   the database (which has not looked at it yet) when B runs completely; then A's database call goes on.
+	//   Sequenced by channels inside the fake database, so the outcome does not depend on scheduling.
+	//   =>  <result of A>,<result of B>|<status of every listed nonce afterwards>
+	ops["C17.overlap"] = func(a []string) string {
+		db := newC3DB("-")
+		nonces := []uint64{}
+		for _, it := range items(a[2], ",") {
+			f := strings.Split(it, ":")
+			db.preset(c3Src, c3Dst, u64(f[0]), f[1])
+			nonces = append(nonces, u64(f[0]))
+		}
+		ps := store.NewPropStore(db)
+		exe := btcExecutor.NewExecutor(ps, nil, nil, nil, nil, nil, c3Mempool{}, map[[32]byte]btcConfig.Resource{},
+			chaincfg.TestNet3Params, &sync.RWMutex{}, &c3Uploader{})
+		callA, callB := c17StoreCall(a[0], ps, exe), c17StoreCall(a[1], ps, exe)
+		gate := db.arm()
+		resA := make(chan string, 1)
+		go func() {
+			defer func() {
+				if r := recover(); r != nil {
+					resA <- "panic"
+				}
+			}()
+			resA <- callA()
+		}()
+		select {
+		case <-gate.entered:
+		case <-time.After(10 * time.Second):
+			return "A-never-reached-the-database"
+		}
+		rb := callB()
+		close(gate.resume)
+		var ra string
+		select {
+		case ra = <-resA:
+		case <-time.After(10 * time.Second):
+			return "A-hang"
+		}
+		var sb strings.Builder
+		for _, n := range nonces {
+			sb.WriteString(db.letter(c3Src, c3Dst, n))
+		}
+		return ra + "," + rb + "|" + joinOr1(sb.String())
+	}
+}
+
+func genC17Overlap(g *G) {
+	for _, pair := range [][2]string{{"3", "4"}, {"4", "3"}, {"5", "15"}, {"15", "5"}, {"7", "7"}} {
+		for _, init := range []string{"m:m", "p:m", "p:p", "e:p", "f:e"} {
+			st := strings.Split(init, ":")
+			inits := pair[0] + ":" + st[0]
+			if pair[1] != pair[0] {
+				inits += "," + pair[1] + ":" + st[1]
+			}
+			for _, A := range []string{"w" + pair[0] + "e", "w" + pair[0] + "f", "X" + pair[0], "r" + pair[0], "R" + pair[0]} {
+				for _, B := range []string{"r" + pair[1], "w" + pair[1] + "p", "w" + pair[1] + "e", "R" + pair[1]} {
+					g.Emit("overlap", A, B, inits)
+				}
+			}
+		}
+	}
+}
+
 func genC17Store(g *G) {
+	genC17Overlap(g)
 	for _, k := range "0nN" + c3FaultKinds {
 		for _, st := range "mpfe" {
 			g.Emit("propstatus", string(k), string(st))
